@@ -443,6 +443,35 @@ func (e *verifEnv) ProfileView(user string) verifProfileView {
 	return v
 }
 
+// TOTP limiter state of one user (in-memory): remaining lock-out and fail count.
+func (e *verifEnv) TOTPLimiter(user string) (lockedFor time.Duration, failCount int, known bool) {
+	e.State.totpLocalTateLimitMutex.Lock()
+	defer e.State.totpLocalTateLimitMutex.Unlock()
+	v, ok := e.State.totpLocalRateLimit[user]
+	if !ok {
+		return 0, 0, false
+	}
+	return time.Until(v.lockoutExpirationTime), int(v.failCount), true
+}
+
+// ShiftTOTPLimiter makes the limiter state of user look d older ("d has passed").
+func (e *verifEnv) ShiftTOTPLimiter(user string, d time.Duration) {
+	e.State.totpLocalTateLimitMutex.Lock()
+	defer e.State.totpLocalTateLimitMutex.Unlock()
+	v, ok := e.State.totpLocalRateLimit[user]
+	if !ok {
+		return
+	}
+	sh := func(t time.Time) time.Time {
+		if t.IsZero() {
+			return t
+		}
+		return t.Add(-d)
+	}
+	v.lastCheckTime, v.lastFailTime, v.lockoutExpirationTime = sh(v.lastCheckTime), sh(v.lastFailTime), sh(v.lockoutExpirationTime)
+	e.State.totpLocalRateLimit[user] = v
+}
+
 // CA certificates exactly as main() adds them to the TLS client pool.
 func (e *verifEnv) ClientCAPool() *x509.CertPool {
 	pool := x509.NewCertPool()
